@@ -180,14 +180,10 @@ def _shards(tier):
             out.append({"kind": k, "ident": ident})
             out.append({"kind": k, "bundle": True, "ident": ident})
         out.append({"kind": k, "second": k})
-    if tier == "thorough":
-        for k in REL_KINDS:
-            for k2 in REL_KINDS:
-                if k2 != k:
-                    out.append({"kind": k, "second": k2})
-    else:
-        for k, k2 in ((2, 3), (8, 2), (11, 10), (5, 6), (12, 11)):
-            out.append({"kind": k, "second": k2})
+    for k in REL_KINDS:
+        for k2 in REL_KINDS:
+            if k2 != k:
+                out.append({"kind": k, "second": k2})
     return out
 
 
@@ -196,11 +192,11 @@ OBLIGATIONS = [
                desc="the path search enumerates the structural space of PROV-O-expressible documents (relation kind, identified/anonymous, optional-argument mask, 0-2 extra attributes "
                     "of 11 kinds, element attributes and times, document/bundle, a second relation sharing the subject or not); every configuration is written as TriG and read back with the "
                     "real rdflib stack on the unmodified build and compared strictly with unified()",
-               bounds={"quick": "6 declared elements; 14 relation kinds alone, in a bundle, doubled, and 5 mixed pairs", "thorough": "all 182 ordered pairs of relation kinds"},
+               bounds="6 declared elements; 14 relation kinds alone, in a bundle, doubled, and all 182 ordered pairs of kinds",
                assumptions=["the quantifier's exclusions: names under non-empty prefixes declared on the document, non-empty bundles, one kind per identifier, first two arguments present, no mention, "
                             "no PROV class as prov:type of a relation, anonymous attribution/communication/delegation/influence/specialization/alternate/membership without extras, "
                             "no identified+anonymous relation of one kind on one subject; values: str, int, bool, datetime, URI, qualified name, language-tagged string",
                             "no symbolic content: rdflib is entered at the first statement of the encoder (weakest use of the technique)"],
                functions=["prov.serializers.provrdf.ProvRDFSerializer.serialize/deserialize/encode_document/encode_container/decode_document/decode_container"],
-               shims=["rdflib crossed in Stage B only"], best_verdict="PATH_COMPLETE", budget_s=(250, 900), per_path_s=(30, 60)),
+               shims=["rdflib crossed in Stage B only"], best_verdict="PATH_COMPLETE", traced=False, budget_s=(250, 900), per_path_s=(30, 60)),
 ]
